@@ -428,6 +428,8 @@ class TransferFrame:
                 raise ValueError
             if len(raw_frame) < frame_properties.fixed_len:
                 raise UslpInvalidRawPacketOrFrameLen
+        elif not isinstance(frame_properties, VarFrameProperties):
+            raise ValueError
         header_type = determine_header_type(header_start=raw_frame)
         if header_type == HeaderType.TRUNCATED:
             # Truncated frames are only allowed if the frame type is specified as variable
